@@ -950,9 +950,14 @@ def typed_widths(rng):
         elif style == "signext-then-mask":
             a.emit(("push", c, None), src, "SIGNEXTEND", ("push", (1 << rng.choice([8, 64, 160, 256])) - 1, None), "AND")
         elif style == "copy-len":
-            opn = rng.choice(["CALLDATACOPY", "CODECOPY", "RETURNDATACOPY"])
-            a.emit(("push", c if c < (1 << 16) else rng.choice([33, 64, 300]), None), rng.choice([0, 4, 36]),
-                   rng.choice([0, 32, 5]), opn, rng.choice([0, 32, 5, 64]), "MLOAD")
+            opn = rng.choice(["CALLDATACOPY", "CALLDATACOPY", "CODECOPY", "RETURNDATACOPY", "EXTCODECOPY"])
+            size = rng.choice([c if c < (1 << 16) else 64, 33, 64, 300, 393, 394, 395, 400, 511, 512, 1000, 4096, 24576, 24577])
+            dest = rng.choice([0, 32, 5])
+            a.emit(("push", size, None), rng.choice([0, 4, 36]), dest)
+            if opn == "EXTCODECOPY":
+                a.emit("CALLER")
+            # read back what was copied: usually the very word at the destination
+            a.emit(opn, dest if rng.random() < 0.6 else rng.choice([0, 32, 5, 64]), "MLOAD")
         elif style == "byte":
             a.emit(src, ("push", c, None), "BYTE")
         else:
